@@ -342,8 +342,18 @@ def r8_casting_emitter(ctx, rule="C04.R8"):
     arm - no further condition (such as `the source is a fixed-length string too`) may skip it."""
     prog = ctx.prog
     f = ctx.anchor_method("InstructionGenerator", "generate_expression_instructions_casting")
-    evs = emit.events(prog, f)
     sws = [s for s in mir.enum_switches(prog, f.body) if s.adt.endswith("::ExpressionType")]
+    hops = 0
+    while not sws and hops < 2:
+        # a wrapper that hands its arguments on to the function that does the work
+        nxt = [prog.fns.get(t.get("res") or mir.callee_of(t)) for _b, t in f.body.calls()]
+        nxt = [g for g in nxt if g is not None and g.file == f.file and emit.is_generator_fn(g) and g.id != f.id]
+        if len(nxt) != 1:
+            break
+        f = nxt[0]
+        sws = [s for s in mir.enum_switches(prog, f.body) if s.adt.endswith("::ExpressionType")]
+        hops += 1
+    evs = emit.events(prog, f)
     if not sws:
         raise CheckError("casting emitter: no match over the target ExpressionType")
     sw = max(sws, key=lambda s: len(s.arms))
@@ -519,6 +529,42 @@ def _locals_of(body, o):
     return out
 
 
+def r12_a_store_pops_the_path_it_built(ctx, rule="C04.R12"):
+    """`(i1..in) -> element is a bijection ... a store reaches the element it names`: CopyAToVarPath stores A
+    into the variable path on top of the VM's path stack and pops it.  The path it consumes is built right in
+    front of it, by the same generator function on the same emission path (VarPathName and what follows, or the
+    path emitter): a bare CopyAToVarPath relies on a path that some earlier code left on the stack, and with two
+    such paths pending (two subscripted by-reference arguments) the stack hands them back in the opposite order
+    to the values, so each value is stored into the other argument's element."""
+    prog = ctx.prog
+    n = 0
+    for f in sorted(emit.generator_fns(prog), key=lambda x: x.id):
+        evs = emit.events(prog, f)
+        if not any(e.kind == "push" and e.instr == "CopyAToVarPath" for e in evs.values()):
+            continue
+        bad = None
+        for seq in emit.linear_paths(f.body, evs):
+            depth = 0
+            for e in seq:
+                if e.kind == "push" and e.instr == "VarPathName":
+                    depth += 1
+                elif e.kind == "gen" and e.callee is not None and e.callee.name == "generate_path_instructions":
+                    depth += 1
+                elif e.kind == "push" and e.instr in ("CopyAToVarPath", "PopVarPath", "PushUnnamedByRef"):
+                    if depth <= 0 and e.instr == "CopyAToVarPath":
+                        bad = e
+                    depth -= 1
+        n += 1
+        ctx.decide(bad is None, rule, "%s:%s" % (rule, f.name), f.loc,
+                   "every CopyAToVarPath follows a path built on the same emission path",
+                   "%s emits CopyAToVarPath (line %s) without having built a variable path on that emission path: the store "
+                   "goes to whatever path earlier code left on the VM's path stack; with two paths pending they come back in "
+                   "the opposite order to the values (`SwapInt A(1), A(5)` stores each value into the other element)"
+                   % (f.name, bad.line if bad else ""))
+    ctx.analysed_units(rule, store_emitting_functions=n)
+    ctx.require(rule, 2)
+
+
 def run(ctx):
     common.install(ctx)
     c06.r2_store_routes(ctx, "C04.R1", strings_only=True)
@@ -535,3 +581,4 @@ def run(ctx):
     from .. import optables as ot
     c12.r4_by_ref_exact(ctx, ot.OpTables(ctx.prog), "C04.R10")
     r11_property_type_is_the_declared_element_type(ctx)
+    r12_a_store_pops_the_path_it_built(ctx)
